@@ -23,7 +23,7 @@ EXTENDS Scopes, Json, IOUtils
 \* TLC orders record fields by first occurrence in the root module: tags first
 FieldOrder == [kind |-> 0, k |-> 0, op |-> 0, mode |-> 0, ok |-> 0, ev |-> 0, tag |-> 0, id |-> 0, ns |-> 0, s |-> 0,
                key |-> 0, name |-> 0, scope |-> 0, table |-> 0, req |-> 0, here |-> 0, chain |-> 0,
-               def |-> 0, sub |-> 0, props |-> 0, items |-> 0, val |-> 0, v |-> 0, type |-> 0]
+               def |-> 0, dis |-> 0, sub |-> 0, props |-> 0, items |-> 0, val |-> 0, v |-> 0, type |-> 0]
 
 Trace == ndJsonDeserialize(IOEnv.VERIF_TRACE)
 VARIABLE l
